@@ -210,10 +210,10 @@ func (r *RefLexer) Lex(in []byte) ([]Tok, Info) {
 type RE = *re
 
 func (r *RefLexer) ModeRules(mode int) []RE { return append([]RE(nil), r.rules[mode]...) }
-func (r *RefLexer) Deriv(x RE, c rune) RE    { return r.G.deriv(x, c) }
-func Dead(x RE) bool                         { return x.op == '0' }
-func NullableRE(x RE) bool                   { return nullable(x) }
-func KeyRE(x RE) string                      { return x.key }
+func (r *RefLexer) Deriv(x RE, c rune) RE   { return r.G.deriv(x, c) }
+func Dead(x RE) bool                        { return x.op == '0' }
+func NullableRE(x RE) bool                  { return nullable(x) }
+func KeyRE(x RE) string                     { return x.key }
 
 // Boundaries returns every code point at which some set of the mode's rules
 // starts, or the one after it ends.
